@@ -15,6 +15,8 @@ fn decorate(rng: &mut Rng, s: &[u16]) -> String {
         t.push(alpha::letter(*x));
     }
     if rng.chance(1, 2) { t.push_str(seps[rng.below(seps.len())]); }
+    // unmatched text as the very last bytes of the input (no whitespace behind it)
+    if rng.chance(1, 4) { let tails = ["#", " #", "é", " 9", "\n#", " # é", "z #", " /* c */#"]; t.push_str(tails[rng.below(tails.len())]); }
     t
 }
 
